@@ -101,6 +101,13 @@ func verifTunnelToUser(m *msg.UDPPacket) bool {
 		verif.IterArg[*net.UDPAddr](evSendU, 2) == m.RemoteAddr
 }
 
+// The reply loop ends only when the tunnel side closes the reply channel: no
+// single reply - undecodable, or refused by the socket - makes it return from
+// inside the loop (that would silence every later reply to every user).
+//
+//verif:loopexit ~/pkg/proto/udp.ForwardUserConn$1 1 check=verifReplyLoopNeverGivesUp
+func verifReplyLoopNeverGivesUp() bool { return false }
+
 //verif:contract ~/pkg/proto/udp.ForwardUserConn$1
 //verif:props C03
 func verif_ForwardUserConn_replies() {
